@@ -91,7 +91,10 @@ add('C06',
     rule='insert/remove histories on rbtree (with a subtree-size aggregator) and rbtree_order: all insertion orders x all removal orders for n<=6 (7 thorough) incl. duplicate-key variants and re-insertion, all insertion-position sequences for rbtree_order, random trees to 3000 (20000) nodes',
     jobs=[job('rbtree', 'c06_rbtree.cpp', shards={'quick': 12, 'thorough': 16}, hang_is_violation=True),
           # the same driver compiled the way a freestanding release build of a client would be (-DNDEBUG -ffreestanding: __STDC_HOSTED__ is 0): code guarded by such macros is code too
-          job('rbtree_ndebug', 'c06_rbtree.cpp', defines=['-DNDEBUG', '-ffreestanding'], shards={'quick': 4, 'thorough': 8}, quick_args=['--scale', '0.3'], hang_is_violation=True)],
+          # build configurations: release (NDEBUG, hosted), freestanding, and both (what a kernel build uses); macros that swallow their argument differ between them
+          job('rbtree_ndebug', 'c06_rbtree.cpp', defines=['-DNDEBUG'], shards={'quick': 3, 'thorough': 8}, quick_args=['--scale', '0.25'], hang_is_violation=True),
+          job('rbtree_freestanding', 'c06_rbtree.cpp', defines=['-ffreestanding'], shards={'quick': 3, 'thorough': 8}, quick_args=['--scale', '0.25'], hang_is_violation=True),
+          job('rbtree_ndebug_freestanding', 'c06_rbtree.cpp', defines=['-DNDEBUG', '-ffreestanding'], shards={'quick': 3, 'thorough': 8}, quick_args=['--scale', '0.25'], hang_is_violation=True)],
     min_evaluations={'quick': 100000, 'thorough': 1000000},
     min_counters={'exhaustive_histories': 100000, 'order_histories': 1000, 'random_histories': 100},
     assumptions=['colours are read from the public hook member; everything else goes through the public navigation API'],
@@ -103,7 +106,10 @@ add('C07',
     rule='insert/remove histories on interval_tree with every overlap query compared with brute force: all interval sequences of length<=3 (4 sampled; all in thorough) over endpoints 0..5 with all query pairs, every single removal and re-insertion; random histories to 1500 (5000) intervals for int and uint64_t',
     jobs=[job('interval', 'c07_interval.cpp', shards={'quick': 12, 'thorough': 16}, hang_is_violation=True),
           # the same driver compiled the way a freestanding release build of a client would be (-DNDEBUG -ffreestanding: __STDC_HOSTED__ is 0): code guarded by such macros is code too
-          job('interval_ndebug', 'c07_interval.cpp', defines=['-DNDEBUG', '-ffreestanding'], shards={'quick': 4, 'thorough': 8}, quick_args=['--scale', '0.3'], hang_is_violation=True)],
+          # build configurations: release (NDEBUG, hosted), freestanding, and both (what a kernel build uses); macros that swallow their argument differ between them
+          job('interval_ndebug', 'c07_interval.cpp', defines=['-DNDEBUG'], shards={'quick': 3, 'thorough': 8}, quick_args=['--scale', '0.25'], hang_is_violation=True),
+          job('interval_freestanding', 'c07_interval.cpp', defines=['-ffreestanding'], shards={'quick': 3, 'thorough': 8}, quick_args=['--scale', '0.25'], hang_is_violation=True),
+          job('interval_ndebug_freestanding', 'c07_interval.cpp', defines=['-DNDEBUG', '-ffreestanding'], shards={'quick': 3, 'thorough': 8}, quick_args=['--scale', '0.25'], hang_is_violation=True)],
     min_evaluations={'quick': 10000, 'thorough': 100000},
     min_counters={'queries': 1000000, 'queries_with_hits': 100000, 'random_histories': 100},
     assumptions=['brute force over the reference multiset is the oracle; overlap is lo<=ub && lb<=hi on closed intervals'],
@@ -115,7 +121,10 @@ add('C08',
     rule='push/pop/remove histories on pairing_heap vs a reference multiset: all sequences of length 6 (7) over {push 4 priorities, pop, remove by structural role}, random histories to 2000 (10000) elements; verified drain at the end of every history',
     jobs=[job('heap', 'c08_heap.cpp', shards={'quick': 12, 'thorough': 16}, hang_is_violation=True),
           # the same driver compiled the way a freestanding release build of a client would be (-DNDEBUG -ffreestanding: __STDC_HOSTED__ is 0): code guarded by such macros is code too
-          job('heap_ndebug', 'c08_heap.cpp', defines=['-DNDEBUG', '-ffreestanding'], shards={'quick': 4, 'thorough': 8}, quick_args=['--scale', '0.3'], hang_is_violation=True)],
+          # build configurations: release (NDEBUG, hosted), freestanding, and both (what a kernel build uses); macros that swallow their argument differ between them
+          job('heap_ndebug', 'c08_heap.cpp', defines=['-DNDEBUG'], shards={'quick': 3, 'thorough': 8}, quick_args=['--scale', '0.25'], hang_is_violation=True),
+          job('heap_freestanding', 'c08_heap.cpp', defines=['-ffreestanding'], shards={'quick': 3, 'thorough': 8}, quick_args=['--scale', '0.25'], hang_is_violation=True),
+          job('heap_ndebug_freestanding', 'c08_heap.cpp', defines=['-DNDEBUG', '-ffreestanding'], shards={'quick': 3, 'thorough': 8}, quick_args=['--scale', '0.25'], hang_is_violation=True)],
     min_evaluations={'quick': 100000, 'thorough': 1000000},
     min_counters={'exhaustive_histories': 100000, 'random_histories': 100, 'remove_role_1': 1000, 'remove_role_2': 1000, 'remove_role_3': 1000, 'remove_role_4': 1000},
     assumptions=['structural roles of removal targets are read from the public hook fields; the oracle itself uses only top()/empty()/pop()/remove()'],
